@@ -2,7 +2,11 @@
 
 package operator
 
-import "reduction.dev/reduction/partitioning"
+import (
+	"time"
+
+	"reduction.dev/reduction/partitioning"
+)
 
 // VerifKeyLayout reports what the deployed operator believes about key ownership (build tag verif only):
 // its own key group range, the ranges of all operators, and the key group it computes for a key together
@@ -16,4 +20,15 @@ func (o *Operator) VerifKeyLayout(key []byte) (own partitioning.KeyGroupRange, a
 	sk := o.stateStore.encodeSubjectKey(key)
 	storedGroup = int(partitioning.KeyGroupFromBytes(sk[:2]))
 	return
+}
+
+// VerifOwnsC05 reports, for a deployed operator, what it would persist for a subject key — a state entry and a
+// timer, encoded by ITS OWN stores — and whether the DataOwnership it handed to its database owns each of them.
+func (o *Operator) VerifOwnsC05(key []byte, namespace string, data []byte, t time.Time) (dbKey, timerKey []byte, ownsDB, ownsTimer bool) {
+	o.mu.RLock()
+	defer o.mu.RUnlock()
+	dbKey = o.stateStore.encodeDBKey(key, namespace, data)
+	_, timerKey = o.timerRegistry.store.encodeTimerKey(key, t)
+	own := o.db.VerifDataOwnershipC05()
+	return dbKey, timerKey, own.OwnsKey(dbKey), own.OwnsKey(timerKey)
 }
